@@ -143,7 +143,29 @@ def check_series(part: Part, vals, calc, core):
     mult = [fv[i] / fv[i - 1] for i in range(1, n)]
     rates = [m - 1 for m in mult]
     sd = ref_std(rates)
-    for freq, interval_in_day in INTERVALS:
+    # integer-typed series (whole-number net values, dtype int64): the same numbers must come out
+    if all(v.denominator == 1 for v in vals):
+        si = pd.Series([int(v) for v in vals], dtype="int64")
+        part.count("evaluations", 4)
+        part.count("integer_series")
+        try:
+            rm = list(calc.return_multiple(si))
+            rr = list(calc.return_rate_series(si))
+            md = calc.max_draw_down(si)
+            an = calc.annualized_return(30.0, net_values=si)
+        except Exception as e:  # noqa: BLE001
+            part.violation(f"C20|integer-series|exception|{type(e).__name__}", f"a metric raised on an integer-typed series: {e}"[:160], {"fn": "integer_series", "series": fv})
+        else:
+            ok = len(rm) == n and close(rm[0], 1) and all(close(a, b) for a, b in zip(rm[1:], mult)) \
+                and len(rr) == n and close(rr[0], 0) and all(close(a, b, abs_=1e-15) for a, b in zip(rr[1:], rates)) \
+                and close(md, expected_mdd, rel=1e-9)
+            tot = fv[-1] / fv[0]
+            if ok and tot ** (365 / 30.0) < 1e250:
+                ok = close(an, tot ** (365 / 30.0) - 1, rel=1e-7)
+            if not ok:
+                part.violation("C20|integer-series|value", "return series / drawdown / annualised return of an integer-typed series differ from their definitions",
+                               {"fn": "integer_series", "series": fv}, {"return_multiple": [float(x) for x in rm], "max_draw_down": float(md), "annualized": float(an)})
+    for i_freq, (freq, interval_in_day) in enumerate(INTERVALS):
         idx = pd.date_range("2024-01-01", periods=n, freq=freq.replace("1D", "1D"))
         s = pd.Series(fv, index=idx)
         duration_in_day = interval_in_day * n
@@ -158,7 +180,7 @@ def check_series(part: Part, vals, calc, core):
             apr = float(vals[-1] / vals[0]) ** (365 / duration_in_day) - 1
         except OverflowError:
             apr = math.inf
-        rf = 0.03
+        rf = (0.03, 0.0, 0.1)[i_freq % 3]  # the risk-free rate is an argument: the default, none at all, and a high one
         exp_sharpe = None
         if exp_vol is not None and exp_vol > 1e-9 and math.isfinite(apr):
             exp_sharpe = (apr - rf) / exp_vol
